@@ -125,9 +125,9 @@ func (p *Prog) Accesses(fn *ssa.Function) []*Access {
 		a := &Access{In: in, Fn: fn, Field: f, Glob: g, Base: base, Write: write, Kind: kind}
 		if f != nil {
 			a.Owner = p.ownerName(f)
-			a.Name = a.Owner + "." + f.Name()
+			a.Name = a.Owner + "." + p.canonFieldName(f)
 		} else if g != nil {
-			a.Name = "global " + g.Name()
+			a.Name = "global " + p.canonGlobalName(g)
 		}
 		out = append(out, a)
 		return a
@@ -458,6 +458,12 @@ func (m *Models) Guards() *GuardTable {
 					continue
 				}
 				if wild || f.Name() == fnm {
+					gt.byField[f] = g
+					found = true
+				}
+			}
+			if !found && !wild {
+				if f := p.Field(tn, fnm); f != nil { // renamed field, resolved against the frozen schema
 					gt.byField[f] = g
 					found = true
 				}
